@@ -1991,7 +1991,8 @@ fn sim_enter(fd: i32, to_submit: u32, min_complete: u32, flags: u32, arg: usize)
 
     // Wake messages need two rings; collect them first.
     crate::sched::sys_point(crate::sched::SYS, 1);
-    let mut wake_targets: Vec<(u64, i32, u64, u32)> = Vec::new();
+    // (seq, target ring, off, len, own user_data, sqe flags)
+    let mut wake_targets: Vec<(u64, i32, u64, u32, u64, u8)> = Vec::new();
     let mut must_block = false;
     let ret = with_sim(|sim| {
         let Sim { rings, events, .. } = sim;
@@ -2015,7 +2016,8 @@ fn sim_enter(fd: i32, to_submit: u32, min_complete: u32, flags: u32, arg: usize)
             if !ring.enabled {
                 break 'ret -(libc::EBADFD as i64);
             }
-            if ring.enforce_single && ring.flags & SETUP_SINGLE_ISSUER != 0 {
+            // (as in Linux: only a call that submits — or waits, with DEFER_TASKRUN — is refused)
+            if ring.enforce_single && ring.flags & SETUP_SINGLE_ISSUER != 0 && (to_submit > 0 || (ring.flags & SETUP_DEFER_TASKRUN != 0 && flags & ENTER_GETEVENTS != 0)) {
                 let tid = unsafe { raw_syscall(libc::SYS_gettid, 0, 0, 0, 0, 0, 0) };
                 match ring.submitter {
                     None => ring.submitter = Some(tid),
@@ -2055,7 +2057,7 @@ fn sim_enter(fd: i32, to_submit: u32, min_complete: u32, flags: u32, arg: usize)
             while i < ring.inflight.len() {
                 let inf = &ring.inflight[i];
                 if inf.sqe.opcode == OP_MSG_RING && inf.sqe.user_data <= 3 {
-                    wake_targets.push((inf.seq, inf.sqe.fd, inf.sqe.off, inf.sqe.len));
+                    wake_targets.push((inf.seq, inf.sqe.fd, inf.sqe.off, inf.sqe.len, inf.sqe.user_data, inf.sqe.flags));
                     ring.inflight.remove(i);
                 } else {
                     i += 1;
@@ -2103,8 +2105,20 @@ fn sim_enter(fd: i32, to_submit: u32, min_complete: u32, flags: u32, arg: usize)
         });
         ret
     });
-    for (seq, tfd, ud, len) in wake_targets {
-        deliver_msg(seq, tfd, ud, len);
+    for (seq, tfd, ud, len, own_ud, sqe_flags) in wake_targets {
+        let res = deliver_msg(seq, tfd, ud, len);
+        // KC7 (probed on the real kernel, `a10h kc`): the MSG_RING submission itself completes on
+        // the source ring — res 0, skipped with IOSQE_CQE_SKIP_SUCCESS — after the message was posted
+        if res != 0 || sqe_flags & IOSQE_CQE_SKIP_SUCCESS == 0 {
+            with_sim(|sim| {
+                let Sim { rings, events, .. } = sim;
+                if let Some(r) = rings.get_mut(&fd) {
+                    if !r.closed {
+                        r.post_raw(None, Cqe { user_data: own_ud, res, flags: 0 }, events);
+                    }
+                }
+            });
+        }
     }
     if must_block {
         // Blocked in the kernel until a completion is available.
@@ -2124,7 +2138,7 @@ fn sim_enter(fd: i32, to_submit: u32, min_complete: u32, flags: u32, arg: usize)
 }
 
 /// KC7: MSG_RING posts one CQE with `user_data = off`, `res = len` on the target.
-fn deliver_msg(seq: u64, target_fd: i32, ud: u64, len: u32) {
+fn deliver_msg(seq: u64, target_fd: i32, ud: u64, len: u32) -> i32 {
     with_sim(|sim| {
         let Sim { rings, events, .. } = sim;
         let res = match rings.get_mut(&target_fd) {
@@ -2148,7 +2162,8 @@ fn deliver_msg(seq: u64, target_fd: i32, ud: u64, len: u32) {
             ud,
             res,
         });
-    });
+        res
+    })
 }
 
 fn sim_register(fd: i32, op: u32, arg: usize, nr: u32) -> i64 {
